@@ -177,21 +177,23 @@ impl ShimBytes<16> for u128 {
 
 // typenum constants used by the counter modes
 pub struct U4;
-impl Unsigned for U4 { #[verifier::external_body] const USIZE: usize = 4; }
+impl Unsigned for U4 { #[verifier::external_body] const USIZE: usize = 4; #[verifier::external_body] const U8: u8 = 4; }
 impl ArraySize for U4 {}
 #[verifier::external_body]
 pub broadcast proof fn axiom_u4() ensures #[trigger] U4::USIZE == 4 {}
 pub struct U8;
-impl Unsigned for U8 { #[verifier::external_body] const USIZE: usize = 8; }
+impl Unsigned for U8 { #[verifier::external_body] const USIZE: usize = 8; #[verifier::external_body] const U8: u8 = 8; }
 impl ArraySize for U8 {}
 #[verifier::external_body]
 pub broadcast proof fn axiom_u8() ensures #[trigger] U8::USIZE == 8 {}
 pub struct U16;
-impl Unsigned for U16 { #[verifier::external_body] const USIZE: usize = 16; }
+impl Unsigned for U16 { #[verifier::external_body] const USIZE: usize = 16; #[verifier::external_body] const U8: u8 = 16; }
 impl ArraySize for U16 {}
 #[verifier::external_body]
 pub broadcast proof fn axiom_u16() ensures #[trigger] U16::USIZE == 16 {}
-impl BlockSizes for U16 { proof fn block_size_bounds() { broadcast use axiom_u16; } }
+#[verifier::external_body]
+pub broadcast proof fn axiom_u16_u8() ensures #[trigger] U16::U8 == 16 {}
+impl BlockSizes for U16 { proof fn block_size_bounds() { broadcast use axiom_u16, axiom_u16_u8; } }
 
 // hybrid-array conversions between core arrays and Array
 impl From<[u8; 16]> for Array<u8, U16> {
